@@ -349,6 +349,20 @@ impl World {
         }
     }
 
+    /// Handler-level execution on a scratch copy: the addressed contract's `execute` runs with the funds
+    /// delivered, the messages it returns are *not* dispatched. Answers "did the handler itself accept?".
+    pub fn handler_accepts(&self, sender: &str, contract: &str, bin: Binary, funds: &[Coin]) -> R<usize> {
+        let mut w = self.clone();
+        let kind = w.contracts.get(contract).ok_or(format!("no such contract {}", contract))?.0;
+        w.bank_send(sender, contract, funds)?;
+        match kind {
+            Kind::Swap | Kind::Oracle | Kind::Sink => return Err("stub".into()),
+            _ => {}
+        }
+        let resp = w.call(kind, contract, sender, funds.to_vec(), Call::Execute(bin))?;
+        Ok(resp.messages.len())
+    }
+
     pub fn register_stub(&mut self, kind: Kind, addr: &str) {
         self.contracts.insert(addr.to_string(), (kind, Store::default()));
     }
